@@ -11,6 +11,28 @@ use crate::{run, Case, Prop, Tier, Viol};
 
 pub struct C09;
 
+const CSS_BLOCKS: &str = "em{color:#010203} li{color:#040506} td{background-color:#070809} table{color:#0a0b0c} h2{color:#0d0e0f} tr{background-color:#101112}";
+const CSS_INLINE: &str = "span{background-color:#212223} strong{color:#242526} a{color:#272829} code{background-color:#2a2b2c} b{color:#2d2e2f} i{background-color:#303132}";
+
+/// the colour annotation a rule of the fixed sheets gives an element (F = Colour, B = BgColour)
+fn css_tag(name: &str, inline_css: bool) -> Option<String> {
+    match name {
+        "em" => Some("F1.2.3".into()),
+        "li" => Some("F4.5.6".into()),
+        "td" => Some("B7.8.9".into()),
+        "table" => Some("F10.11.12".into()),
+        "tr" => Some("B16.17.18".into()),
+        "h2" => Some("F13.14.15".into()),
+        "span" if inline_css => Some("B33.34.35".into()),
+        "strong" if inline_css => Some("F36.37.38".into()),
+        "a" if inline_css => Some("F39.40.41".into()),
+        "code" if inline_css => Some("B42.43.44".into()),
+        "b" if inline_css => Some("F45.46.47".into()),
+        "i" if inline_css => Some("B48.49.50".into()),
+        _ => None,
+    }
+}
+
 fn knobs() -> Knobs {
     let mut k = Knobs::all().no_css().unique();
     k.href_digits = true;
@@ -92,7 +114,10 @@ impl Prop for C09 {
                 cfg.pad = r.p(10);
                 cfg.nostrike = r.p(30);
                 if r.p(30) {
-                    cfg.user_css = Some("em{color:#010203} li{color:#040506} td{background-color:#070809} table{color:#0a0b0c} h2{color:#0d0e0f} tr{background-color:#101112}".into());
+                    // the second sheet also colours the neutral and the annotating inline elements, so that colours nest inside
+                    // one inline flow (span > strong, a > span, ...) and foreground/background alternate (added after the
+                    // seeded change C09-span-collapsed-into-only-child was seen by the correspondence only)
+                    cfg.user_css = Some(if r.p(50) { CSS_BLOCKS.into() } else { format!("{CSS_BLOCKS} {CSS_INLINE}") });
                 }
                 let w = if r.p(40) || prewrap { 1 + r.u(16) } else { 1 + r.u(100) };
                 v.push(case(html.clone(), cfg, w, if prewrap { "pre-wrap" } else if tables { "tables" } else { "blocks" }));
@@ -124,6 +149,7 @@ impl Prop for C09 {
             // against the annotations of its enclosing elements
             let f = flat_of(&dom);
             let css = c.cfg.user_css.is_some();
+            let inline_css = c.cfg.user_css.as_deref().map(|x| x.contains("span{")).unwrap_or(false);
             let mut doc_words: Vec<(String, Vec<usize>)> = Vec::new();
             let mut cur: (String, Vec<usize>) = (String::new(), Vec::new());
             // `all` = every token character of the document in flow order, words separated by '\u{1}': an output word that is
@@ -197,14 +223,8 @@ impl Prop for C09 {
                     for x in f.chain(*e) {
                         let n = f.elems[x].node;
                         if css {
-                            match n.name() {
-                                "em" => want.push("F1.2.3".into()),
-                                "li" => want.push("F4.5.6".into()),
-                                "td" => want.push("B7.8.9".into()),
-                                "table" => want.push("F10.11.12".into()),
-                                "tr" => want.push("B16.17.18".into()),
-                                "h2" => want.push("F13.14.15".into()),
-                                _ => {}
+                            if let Some(t) = css_tag(n.name(), inline_css) {
+                                want.push(t);
                             }
                         }
                         if let Some(a) = ann_of(n) {
@@ -240,6 +260,7 @@ impl Prop for C09 {
             return out; // text alignment is C03's business
         }
         let css = c.cfg.user_css.is_some();
+        let inline_css = c.cfg.user_css.as_deref().map(|x| x.contains("span{")).unwrap_or(false);
         for (i, ((ch, e), (_, tags))) in toks.iter().zip(&got).enumerate() {
             let mut want: Vec<String> = Vec::new();
             let mut in_pre = false;
@@ -247,14 +268,8 @@ impl Prop for C09 {
                 for x in f.chain(*e) {
                     let n = f.elems[x].node;
                     if css {
-                        match n.name() {
-                            "em" => want.push("F1.2.3".into()),
-                            "li" => want.push("F4.5.6".into()),
-                            "td" => want.push("B7.8.9".into()),
-                            "table" => want.push("F10.11.12".into()),
-                            "tr" => want.push("B16.17.18".into()),
-                            "h2" => want.push("F13.14.15".into()),
-                            _ => {}
+                        if let Some(t) = css_tag(n.name(), inline_css) {
+                            want.push(t);
                         }
                     }
                     if let Some(a) = ann_of(n) {
